@@ -321,7 +321,6 @@ class EmitV3(V3Unit):
                       exc is not None and len(sent) == 1 and mproc.fields.get("disco") is None)
             return "refused"
         if len(sent) == 1:
-            import os as _o; _o.environ.get("PYVC_DBG") and print("DBG", exc, getattr(exc, "fields", None), file=__import__("sys").stderr)
             chk(("C07", "C12", "C05", "C14"), DISC, "raises", "only-InvalidResponseId-and-only-for-a-foreign-message-id",
                 And(exc is not None and exc_is(exc, inv), Not(same_id)))
             return "refused"
